@@ -108,6 +108,17 @@ func (rww *responseWriterWrapper) WriteHeader(status int) {
 	rww.ResponseWriterWrapper.WriteHeader(status)
 }
 
+// Flush implements http.Flusher. A handler that flushes before it has
+// written anything makes the underlying ResponseWriter send the header:
+// it has to go through WriteHeader above first, so that the deferred
+// header operations are applied and the header is written only once.
+func (rww *responseWriterWrapper) Flush() {
+	if !rww.wroteHeader {
+		rww.WriteHeader(http.StatusOK)
+	}
+	rww.ResponseWriterWrapper.Flush()
+}
+
 // delHeader deletes the existing header according to the key
 // Also it will delete that header added later.
 func (rww *responseWriterWrapper) delHeader(key string) {
